@@ -73,7 +73,12 @@ static void query(LocalNetwork& n, std::istringstream& in, const std::string& cm
   else if (cmd == "NULL") printf("OK %d\n", n.null_space());
   else if (cmd == "NUNK") printf("OK %d\n", n.unknowns_count());
   else if (cmd == "NOBS") printf("OK %d\n", n.observations_count());
-  else if (cmd == "CONFCOEF") printf("OK %.17g\n", n.conf_int_coef());
+  else if (cmd == "CONFCOEF") {
+    // value + what it must be a quantile of (judged against scipy by the monitor: a process-wide cache would
+    // fool the fresh-object oracle, which lives in the same process)
+    double c = n.conf_int_coef();
+    printf("OK %.17g %d %.17g %d\n", c, n.degrees_of_freedom(), n.conf_pr(), n.m_0_aposteriori() ? 1 : 0);
+  }
   else if (cmd == "CONNECTED") { n.unknowns_count(); printf("OK %d\n", n.connected_network() ? 1 : 0); }
   else if (cmd == "QXX" || cmd == "QBB") {
     int i, j; in >> i >> j;
